@@ -95,6 +95,9 @@ def shards(tier):
                             out.append({"dim": dim, "sys": list(s), "flavor": flavor, "layer": layer, "depth": depth, "first": [k, min(n, k + 8)]})
                     else:
                         out.append({"dim": dim, "sys": list(s), "flavor": flavor, "layer": layer, "depth": depth})
+    for dim in (2, 3, 4):
+        for s in L.SYSTEMS[dim]:
+            out.append({"kind": "number_kinds", "dim": dim, "sys": list(s), "depth": 2 if tier == "quick" else 3})
     return out
 
 
@@ -344,8 +347,97 @@ def explore(res: Result, dim, system, flavor, layer, depth, tier, graph, first_r
         frontier = nxt
 
 
+# ---------------------------------------------------------------------------------- number kinds
+import numpy as _np  # noqa: E402
+
+KINDS = {"int": int, "np.int64": _np.int64, "np.int32": _np.int32, "np.float32": _np.float32, "np.float64": _np.float64, "float": float}
+KIND_INIT = {"x": 3, "y": -2, "rho": 3, "phi": 1, "z": -5, "theta": 2, "eta": -1, "t": 9, "tau": 4}
+KIND_EVENTS = [("*=", 2), ("*=", 2.0), ("/=", 4), ("*=", 0.75), ("*=", -3), ("/=", _np.int64(-2)), ("+=", "float"), ("-=", "int"), ("+=", "same")]
+KIND_OPERAND = {"x": (0.625, 2), "y": (1.25, 1), "rho": (1.375, 2), "phi": (-0.4375, 2), "z": (2.5, 3), "theta": (0.8125, 1), "eta": (0.5625, 1), "t": (11.25, 12), "tau": (3.5, 5)}
+
+
+def _cart(v, dim):
+    names = ("x", "y", "z", "t")[:dim]
+    return [float(getattr(v, n)) for n in names]
+
+
+def number_kinds(res: Result, dim, system, depth, only=None):
+    """Histories of in-place operators on objects whose stored coordinates are integer-valued numbers of every kind (Python int,
+    NumPy int64 / int32, float32, float64): after every event the object is the same object of the same class and coordinate
+    system and its Cartesian components equal those of the functional operation applied to a float copy of the state before."""
+    names = L.field_names(system)
+    for flavor in ("generic", "momentum"):
+        cls = OBJ_CLASS[(flavor, dim)]
+        for kname, kind in KINDS.items():
+            rtol = 1e-6 if kname == "np.float32" else 1e-9
+
+            def make(k):
+                return L.build_object(cls, system, tuple(k(KIND_INIT[n]) for n in names))
+
+            def operand(which, v):
+                if which == "same":
+                    return make(kind)
+                j = 0 if which == "float" else 1
+                return L.build_object(OBJ_CLASS[("generic", dim)], system, tuple((float if j == 0 else int)(KIND_OPERAND[n][j]) for n in names))
+
+            frontier = [(e,) for e in KIND_EVENTS]
+            for d in range(1, depth + 1):
+                nxt = []
+                for hist in frontier:
+                    res.states += 1
+                    res.evaluations += 1
+                    v = make(kind)
+                    ok = True
+                    for i, (opn, arg) in enumerate(hist):
+                        before = L.build_object(cls, system, tuple(float(x) for x in L.system_of(v)[1]))
+                        ident, typ = id(v), type(v)
+                        res.transitions += 1
+                        case = {"kind": "number_kinds", "dim": dim, "sys": list(system), "flavor": flavor, "number_kind": kname, "history": [list(map(str, e)) for e in hist[: i + 1]]}
+                        klass = f"number_kinds|{dim}D|{L.sysname(system)}|{kname}|{opn}{arg if not isinstance(arg, str) else ' ' + arg + ' vector'}"
+                        try:
+                            if opn in ("*=", "/="):
+                                want = before * arg if opn == "*=" else before / arg
+                                if opn == "*=":
+                                    v *= arg
+                                else:
+                                    v /= arg
+                            else:
+                                w = operand(arg, v)
+                                wf = L.build_object(type(w), system, tuple(float(x) for x in L.system_of(w)[1]))
+                                want = before + wf if opn == "+=" else before - wf
+                                if opn == "+=":
+                                    v += w
+                                else:
+                                    v -= w
+                        except Exception as e:  # noqa: BLE001
+                            res.violation(klass + "|raises", f"{opn} {arg!r} on a {kname}-valued {L.sysname(system)} object raised {type(e).__name__}: {e}", case)
+                            ok = False
+                            break
+                        if i < len(hist) - 1:
+                            continue
+                        res.traces += 1
+                        got, exp = _cart(v, dim), _cart(want, dim)
+                        scale = max(1.0, max(abs(x) for x in exp))
+                        if id(v) != ident or type(v) is not typ or L.system_of(v)[0] != tuple(system):
+                            res.violation(klass + "|identity", f"after {hist}: object identity / class / coordinate system changed ({type(v).__name__}, {L.system_of(v)[0]})", case)
+                            ok = False
+                        elif not all(abs(g - e) <= rtol * scale for g, e in zip(got, exp)):
+                            res.violation(klass, f"{kname}-valued {L.sysname(system)} {flavor} object after {[list(map(str, e)) for e in hist]}: Cartesian components {got}, the functional operation on a float copy gives {exp}", case)
+                            ok = False
+                        else:
+                            res.nontrivial += 1
+                    if ok and d < depth:
+                        for e in KIND_EVENTS:
+                            nxt.append(hist + (e,))
+                frontier = nxt
+
+
 def run_shard(shard, tier):
     res = Result()
+    if shard.get("kind") == "number_kinds":
+        number_kinds(res, shard["dim"], tuple(shard["sys"]), shard["depth"])
+        res.counters["depth_max"] = shard["depth"]
+        return res
     graph = set()
     dim, system = shard["dim"], tuple(shard["sys"])
     explore(res, dim, system, shard["flavor"], shard["layer"], shard["depth"], tier, graph, shard.get("first"))
@@ -370,6 +462,9 @@ def finalize(total, tier, complete):
 
 def replay(case):
     res = Result()
+    if case.get("kind") == "number_kinds":
+        number_kinds(res, case["dim"], tuple(case["sys"]), len(case["history"]))
+        return res
     hist = case["history"]
     dim = case["dim"]
     graph = set()
